@@ -1,9 +1,10 @@
 (* C14 — Backoff delays are total, monotone and capped (over IEEE-754 binary64 as formalised by
    Flocq; the four standard-library axioms of Coq's classical reals are the only assumptions).
-   Only statements, `exact` of a lemma from Proof/Backoff.v, and Print Assumptions.
+   Only statements, `exact` of a lemma from Proof/Backoff*.v, and Print Assumptions.
 
    Vocabulary (Model/Backoff.v, Proof/Backoff.v): durations are nanoseconds in Z, DUR_MAX =
-   Duration::MAX; attempts are N (usize: below 2^64); `draw` is the value random_range returned
+   Duration::MAX; attempt numbers are N WITHOUT any bound (usize, u32 and everything beyond:
+   the code clamps the exponent to i32::MAX); `draw` is the value random_range returned
    (an oracle: every statement is for all draws); None = panic.
    wf_cfg c      : initial and cap are Durations (0..DUR_MAX), multiplier finite and >= 1,
                    randomization factor in [0,1]  (executable predicates, see the Examples).
@@ -12,13 +13,20 @@
    draw_in_range : jitter_lo <= draw <= jitter_hi, i.e. the contract of random_range(lo..=hi),
                    jitter_lo/hi = d -/+ d*factor computed in f64 exactly as `randomize` does.
    dur_sat x     : Duration::try_from_secs_f64(x.max(0.0)).unwrap_or(Duration::MAX).
-   All theorems are full except C14_real_error_partial (see the comment there). *)
-From TR Require Import Lib.Base Model.Backoff Proof.Backoff.
+   B2R64 x       : the real value of a finite binary64; IZR / INR : integers / naturals in R.
+   retry_stepf / reconnect_stepf, loop_delays : one step of the retry / reconnect loop after a
+                   failed call with the loops' own counters (checked usize; saturating u32
+                   widened to usize), and `fuel` steps of it: the delays slept and whether the
+                   loop panicked. These are the functions run_script executes for kinds 8/9.
+   All theorems are full. *)
+From Flocq Require Import Core.
+From Coq Require Import Reals.
+From TR Require Import Lib.Base Model.Backoff Proof.Backoff Proof.BackoffReal Proof.BackoffLoop.
 
-(* no panic: every backoff type (and RetryPolicy::next_backoff), every attempt, every draw *)
+(* no panic: every backoff type (and RetryPolicy::next_backoff), EVERY attempt number, every draw *)
 Theorem C14_total :
   forall (b : backoff) (attempt : N) (draw : f64),
-    wf_backoff b = true -> (attempt < 2 ^ 64)%N ->
+    wf_backoff b = true ->
     exists d, next_interval b attempt draw = Some d /\ next_backoff b attempt draw = Some d.
 Proof. exact total_backoff. Qed.
 Print Assumptions C14_total.
@@ -26,7 +34,7 @@ Print Assumptions C14_total.
 (* no panic for every ReconnectPolicy; "no delay" exactly for ReconnectPolicy::None *)
 Theorem C14_total_reconnect :
   forall (p : reconnect_policy) (attempt : N) (draw : f64),
-    wf_policy p = true -> (attempt < 2 ^ 64)%N ->
+    wf_policy p = true ->
     exists r, delay_for_attempt p attempt draw = Some r /\ (r = None <-> p = PNone).
 Proof. exact total_policy. Qed.
 Print Assumptions C14_total_reconnect.
@@ -34,7 +42,7 @@ Print Assumptions C14_total_reconnect.
 (* never above max_interval (and always a representable Duration) *)
 Theorem C14_capped :
   forall (c : cfg) (attempt : N) (draw : f64),
-    wf_cfg c = true -> (attempt < 2 ^ 64)%N ->
+    wf_cfg c = true ->
     exists d, next_interval (Exponential c) attempt draw = Some d /\ 0 <= d <= DUR_MAX /\
               (forall k, max_interval c = Some k -> d <= k).
 Proof. exact capped. Qed.
@@ -44,7 +52,7 @@ Print Assumptions C14_capped.
    base <= cap and result <= dur_sat (base + base*factor) *)
 Theorem C14_capped_jittered :
   forall (c : cfg) (attempt : N) (draw : f64),
-    wf_cfg c = true -> (attempt < 2 ^ 64)%N -> draw_in_range c attempt draw = true ->
+    wf_cfg c = true -> draw_in_range c attempt draw = true ->
     exists r, next_interval (ExponentialRandom c) attempt draw = Some r /\
               (forall k, max_interval c = Some k -> 0 <= base_of c attempt <= k) /\
               0 <= r <= dur_sat (jitter_hi (base_of c attempt) (factor c)) /\
@@ -56,7 +64,7 @@ Print Assumptions C14_capped_jittered.
    rounding after every product, overflow to +inf, conversion and cap included) *)
 Theorem C14_monotone :
   forall (c : cfg) (a b : N) (draw : f64),
-    wf_cfg c = true -> (a <= b)%N -> (b < 2 ^ 64)%N ->
+    wf_cfg c = true -> (a <= b)%N ->
     exists da db, next_interval (Exponential c) a draw = Some da /\
                   next_interval (Exponential c) b draw = Some db /\ da <= db.
 Proof. exact monotone. Qed.
@@ -69,27 +77,47 @@ Theorem C14_powi_monotone :
 Proof. exact powi_monotone. Qed.
 Print Assumptions C14_powi_monotone.
 
-(* what the value is: with secs = as_secs_f64(initial) (x) powi(multiplier, min(attempt, i32::MAX))
-   in binary64, the result is 0 if !(secs > 0), else try_from_secs_f64(secs) while that is at
-   most the cap, else the cap (also when the conversion fails: secs >= 2^64 s or +inf) *)
-Theorem C14_exact_below_cap :
-  forall (ini : Z) (m : f64) (attempt : N) (max : option Z),
-    let secs := fmul (as_secs_f64 ini) (powi m (N.min attempt I32_MAX)) in
-    (fgt secs fzero = false -> exponential_interval ini m attempt max = 0) /\
-    (fgt secs fzero = true ->
-       forall d, try_from_secs_f64 secs = Some d -> d <= cap_of max ->
-       exponential_interval ini m attempt max = d) /\
-    (fgt secs fzero = true ->
-       (try_from_secs_f64 secs = None \/
-        exists d, try_from_secs_f64 secs = Some d /\ cap_of max <= d) ->
-       exponential_interval ini m attempt max = cap_of max).
-Proof. exact exact_below_cap. Qed.
-Print Assumptions C14_exact_below_cap.
+(* "never above max_interval afterwards": once the cap has been reached it is kept *)
+Theorem C14_stays_capped :
+  forall (c : cfg) (a b : N) (k : Z) (draw : f64),
+    wf_cfg c = true -> max_interval c = Some k -> (a <= b)%N ->
+    next_interval (Exponential c) a draw = Some k -> next_interval (Exponential c) b draw = Some k.
+Proof. exact stays_capped_next_interval. Qed.
+Print Assumptions C14_stays_capped.
+
+(* "equal to initial x multiplier^attempt until that reaches max_interval", as a statement about
+   the returned nanoseconds in R: with e = min(attempt, i32::MAX) and v = initial * multiplier^e
+   (the exact real product, in ns), whenever v enlarged by the error bound is still below the
+   cap the returned delay is within v * (e+3) * 2^-52 + 1 ns of v. Everything is included: the
+   roundings of Duration::as_secs_f64, of every product of square-and-multiply, of the final
+   product, the rounding to whole nanoseconds; finiteness of the f64 product is derived, not
+   assumed. (e+3 roundings is what a plain multiply loop would make; powi makes fewer.) *)
+Theorem C14_real_value :
+  forall (c : cfg) (a : N), wf_cfg c = true ->
+    let e := N.to_nat (N.min a I32_MAX) in
+    let v := (IZR (initial c) * B2R64 (multiplier c) ^ e)%R in
+    (v * (1 + (INR e + 3) * bpow radix2 (-52)) + 1 <= IZR (cap_of (max_interval c)))%R ->
+    (Rabs (IZR (base_of c a) - v) <= v * (INR e + 3) * bpow radix2 (-52) + 1)%R.
+Proof. exact real_value. Qed.
+Print Assumptions C14_real_value.
+
+(* "... and never above max_interval afterwards": once v reduced by the error bound is above
+   the cap (also when the f64 product overflowed to +inf or is >= 2^64 s) the returned delay is
+   the cap exactly. Between the two theorems (v within the error bound of the cap) the delay
+   is either, by C14_monotone and C14_capped. *)
+Theorem C14_real_capped :
+  forall (c : cfg) (a : N), wf_cfg c = true ->
+    let e := N.to_nat (N.min a I32_MAX) in
+    let v := (IZR (initial c) * B2R64 (multiplier c) ^ e)%R in
+    (IZR (cap_of (max_interval c)) + 1 <= v * (1 - (INR e + 3) * bpow radix2 (-52)))%R ->
+    base_of c a = cap_of (max_interval c).
+Proof. exact real_capped. Qed.
+Print Assumptions C14_real_capped.
 
 (* every draw inside the range gives a delay between the two ends of the range *)
 Theorem C14_jitter_within_factor :
   forall (c : cfg) (attempt : N) (draw : f64),
-    wf_cfg c = true -> (attempt < 2 ^ 64)%N -> draw_in_range c attempt draw = true ->
+    wf_cfg c = true -> draw_in_range c attempt draw = true ->
     exists r, next_interval (ExponentialRandom c) attempt draw = Some r /\
               dur_sat (jitter_lo (base_of c attempt) (factor c)) <= r /\
               r <= dur_sat (jitter_hi (base_of c attempt) (factor c)) /\
@@ -97,10 +125,27 @@ Theorem C14_jitter_within_factor :
 Proof. exact jitter_within_factor. Qed.
 Print Assumptions C14_jitter_within_factor.
 
+(* "jittered variants stay within the randomization factor of that value", in R: with B the
+   un-jittered delay (ns) and phi the factor, the jittered delay lies in
+   [B (1 - phi), B (1 + phi)] up to B * 2^-49 + 1 ns (the roundings of as_secs_f64, of
+   d * factor, of d -/+ delta, and of the conversion back to whole nanoseconds) *)
+Theorem C14_jitter_real :
+  forall (c : cfg) (a : N) (draw : f64),
+    wf_cfg c = true -> draw_in_range c a draw = true ->
+    let B := IZR (base_of c a) in
+    let phi := B2R64 (factor c) in
+    (0 <= phi <= 1)%R /\
+    exists r, next_interval (ExponentialRandom c) a draw = Some r /\
+      (B * (1 - phi) - B * bpow radix2 (-49) - 1 <= IZR r)%R /\
+      (IZR r <= B * (1 + phi) + B * bpow radix2 (-49) + 1)%R /\
+      0 <= r <= DUR_MAX.
+Proof. exact jitter_real. Qed.
+Print Assumptions C14_jitter_real.
+
 (* every ReconnectPolicy inherits total / capped / monotone *)
 Theorem C14_reconnect_policies :
   forall (p : reconnect_policy) (a b : N) (draw : f64),
-    wf_policy p = true -> (a <= b)%N -> (b < 2 ^ 64)%N ->
+    wf_policy p = true -> (a <= b)%N ->
     match p with
     | PNone => delay_for_attempt p a draw = Some None
     | PFixed d =>
@@ -138,19 +183,51 @@ Theorem C14_constructors_wf :
 Proof. exact constructors_wf. Qed.
 Print Assumptions C14_constructors_wf.
 
-(* PARTIAL. Distance between the binary64 product and the real product: with
-   s = the binary64 value of as_secs_f64(initial), mu = multiplier, e = min(attempt, i32::MAX),
-   u = 2^-53 (Proof/Backoff.v: real_error_bound),
-     s * mu^e * (1-u)^(e+1) <= secs <= s * mu^e * (1+u)^(e+1)
-   whenever the product did not overflow. What is missing for the property's
-   "equal to initial x multiplier^attempt": (1) the error of as_secs_f64(initial) against the real
-   initial/10^9 (two more roundings, and the u64 -> f64 cast above 2^53 s) and the final
-   rounding to whole nanoseconds (at most 0.5 ns) are not included; (2) the bound is left in
-   the multiplicative form (1 -/+ u)^(e+1) instead of (attempt+2)*2^-53-ish. The monitor in
-   gen/c14.py checks the end-to-end bound (attempt+2)*2^-52 (+1 ns) on every run. *)
-Theorem C14_real_error_partial :
-  forall (c : cfg) (attempt : N),
-    wf_cfg c = true -> 1 <= initial c -> fis_finite (secs_of c attempt) = true ->
-    real_error_bound c attempt.
-Proof. exact real_error_partial. Qed.
-Print Assumptions C14_real_error_partial.
+(* "Consequently retry ... loops can run indefinitely against a dead backend without crashing":
+   the retry loop (attempt : usize from 0, `attempt + 1 >= max_attempts` and `attempt += 1`
+   with overflow checks) against a backend that fails every call, for EVERY max_attempts a usize
+   can hold, every jitter stream and every number of steps: it never panics (the checked
+   additions never overflow because attempt < max_attempts <= usize::MAX), it sleeps exactly
+   min(fuel, max_attempts - 1) times, and the j-th sleep is next_backoff(j) *)
+Theorem C14_retry_loop_total :
+  forall (b : backoff) (max_attempts : N) (draws : nat -> f64) (fuel : nat),
+    wf_backoff b = true -> (max_attempts <= USIZE_MAX)%N ->
+    exists ds, loop_delays (retry_stepf b max_attempts draws) fuel 0 0%N = (ds, false) /\
+      N.of_nat (length ds) = N.min (N.of_nat fuel) (N.pred max_attempts) /\
+      (forall j d, nth_error ds j = Some d -> next_backoff b (N.of_nat j) (draws j) = Some d).
+Proof. exact retry_loop_total. Qed.
+Print Assumptions C14_retry_loop_total.
+
+(* "... and reconnect loops ...": the reconnect loop (attempt : u32 from 0, saturating_add(1),
+   `attempt as usize` handed to delay_for_attempt), every policy, every max_attempts (None =
+   unlimited, the default), every jitter stream, EVERY number of failures — in particular more
+   than 2^32 of them: it never panics, the j-th sleep is delay_for_attempt(min(j+1, u32::MAX)),
+   and with unlimited attempts and a policy other than None it never stops either *)
+Theorem C14_reconnect_loop_total :
+  forall (p : reconnect_policy) (max_attempts : option N) (draws : nat -> f64) (fuel : nat),
+    wf_policy p = true ->
+    exists ds, loop_delays (reconnect_stepf p max_attempts draws) fuel 0 0%N = (ds, false) /\
+      (forall j d, nth_error ds j = Some d ->
+         delay_for_attempt p (N.min (N.of_nat (S j)) U32_MAX) (draws j) = Some (Some d)) /\
+      (p <> PNone -> max_attempts = None -> length ds = fuel).
+Proof. exact reconnect_loop_total. Qed.
+Print Assumptions C14_reconnect_loop_total.
+
+(* along either loop the exponential delays actually slept are non-decreasing and capped *)
+Theorem C14_retry_loop_delays :
+  forall (c : cfg) (max_attempts : N) (fuel : nat) (draws : nat -> f64) (j k : nat) (dj dk : Z),
+    wf_cfg c = true -> (max_attempts <= USIZE_MAX)%N -> (j <= k)%nat ->
+    nth_error (fst (loop_delays (retry_stepf (Exponential c) max_attempts draws) fuel 0 0%N)) j = Some dj ->
+    nth_error (fst (loop_delays (retry_stepf (Exponential c) max_attempts draws) fuel 0 0%N)) k = Some dk ->
+    0 <= dj <= dk /\ dk <= cap_of (max_interval c) <= DUR_MAX.
+Proof. exact retry_loop_exponential. Qed.
+Print Assumptions C14_retry_loop_delays.
+
+Theorem C14_reconnect_loop_delays :
+  forall (c : cfg) (max_attempts : option N) (fuel : nat) (draws : nat -> f64) (j k : nat) (dj dk : Z),
+    wf_cfg c = true -> (j <= k)%nat ->
+    nth_error (fst (loop_delays (reconnect_stepf (PExponential c) max_attempts draws) fuel 0 0%N)) j = Some dj ->
+    nth_error (fst (loop_delays (reconnect_stepf (PExponential c) max_attempts draws) fuel 0 0%N)) k = Some dk ->
+    0 <= dj <= dk /\ dk <= cap_of (max_interval c) <= DUR_MAX.
+Proof. exact reconnect_loop_exponential. Qed.
+Print Assumptions C14_reconnect_loop_delays.
